@@ -323,6 +323,33 @@ class FactClient(ir.Client):
         facts = frozenset(facts)
         return (facts, pend, hist | {x for x in facts if x[0] in self.hist_kinds})
 
+    post_nonzero = {}
+
+    def env_refine(self, c, pol, st, env_before, env):
+        """t = f(obj, ..); if (t == SIZE_MAX) return ..;  on the accepting side the fields that f's successful returns
+        leave non-zero (post_nonzero: callee -> [(argument index, "->field")], derived by the decoder analysis) are
+        non-zero in the caller's object"""
+        if not self.post_nonzero:
+            return env
+        facts, pend, hist = st
+        c = strip(c)
+        if not (c.get("k") == "Bin" and c["op"] in ("==", "!=")):
+            return env
+        for a, b in ((strip(c["x"]), strip(c["y"])), (strip(c["y"]), strip(c["x"]))):
+            if a.get("k") == "Ref" and ir.int_val(b) == (1 << 64) - 1:
+                ok = (not pol) if c["op"] == "==" else pol
+                if not ok:
+                    continue
+                for vid, (cs, t) in pend:
+                    if vid != a["id"] or t != "size_t":
+                        continue
+                    cn = cs.split("(", 1)[0]
+                    args = cs[len(cn) + 1:-1].split(",")
+                    for i, suffix in self.post_nonzero.get(cn, ()):
+                        if i < len(args) and re.match(r"^\w+$", args[i]):
+                            env = env.set("m:%s%s" % (args[i], suffix), ("nz",))
+        return env
+
     def ret(self, e, st, env, node):
         facts, pend, hist = st
         if self.on_return:
@@ -345,8 +372,9 @@ class FactClient(ir.Client):
         return st
 
 
-def run_facts(func, prog, on_call=None, on_return=None, track_generic=True, max_states=400000):
+def run_facts(func, prog, on_call=None, on_return=None, track_generic=True, max_states=400000, post_nonzero=None):
     cl = FactClient(func, prog, on_call, on_return, track_generic)
+    cl.post_nonzero = post_nonzero or {}
     res = ir.run_paths(func, cl, max_states=max_states)
     if res.truncated:
         raise ir.AnalysisBroken("validation-presence: state space truncated in %s" % func.name)
